@@ -75,6 +75,7 @@ func decode(b []byte, how func([]byte) []byte) decResult {
 	}
 	r.panick, _ = try(func() { r.m, r.ok = hsms.Parse(in) })
 	hsms.VerifItemHook = nil
+	scribbleBytes(in) // the receive buffer is reused: what was decoded from it must not change
 	if r.hdrs == nil {
 		r.hdrs = []interface{}{}
 	}
@@ -221,9 +222,23 @@ func driverRT(c *Ctx) {
 			}
 		case "boundary":
 			item = sizeBoundaryItem(g, big).Build()
+		case "deep":
+			d := []int{8, 15, 16, 17, 18, 31, 32, 33, 64, 65, 129}[g.pick(11)]
+			var cur ast.ItemNode = g.leaf(false).Build()
+			for k := 0; k < d; k++ {
+				switch g.pick(3) {
+				case 0:
+					cur = ast.NewListNode(cur)
+				case 1:
+					cur = ast.NewListNode(g.leaf(false).Build(), cur)
+				default:
+					cur = ast.NewListNode(cur, g.leaf(false).Build(), ast.NewListNode())
+				}
+			}
+			item = cur
 		}
 		switch how {
-		case "factory", "boundary":
+		case "factory", "boundary", "deep":
 			m = buildComplete(g, gm, item, 0)
 		case "lifecycle":
 			m = buildComplete(g, gm, item, 1)
